@@ -20,6 +20,7 @@ RunAll(e) ==
 
 Runs(e) == IF e.ev = "obs" /\ e.cfgok THEN RunAll(e) ELSE {}
 Viol(rs)  == UNION { SeqSet(t[3].viol) : t \in rs }
+Dets(rs)  == UNION { { <<t[1], t[2], t[3].det[i]>> : i \in 1..Len(t[3].det) } : t \in rs }
 Stops(rs) == { t[3].why : t \in rs }
 Steps(rs) == IF rs = {} THEN 0 ELSE (CHOOSE t \in rs : \A u \in rs : t[3].steps >= u[3].steps)[3].steps
 
@@ -33,6 +34,8 @@ Init == l = 1
 Next == /\ l <= Len(Rec)
         /\ LET rs == Runs(Rec[l]) IN
              /\ ReportSet(Rec[l], Viol(rs))
+             /\ IF Dets(rs) = {} THEN TRUE
+                ELSE PrintT("DETAIL " \o ToJson([id |-> Rec[l].id, det |-> ToString(Dets(rs))]))
              /\ PrintT("STAT " \o ToJson([id |-> Rec[l].id, stops |-> Stops(rs), steps |-> Steps(rs)]))
         /\ l' = l + 1
 Spec == Init /\ [][Next]_vars
